@@ -80,6 +80,8 @@ def _solve_kwargs(a):
         kw["maxiter"] = a["maxiter"]
     if a.get("use_hessian") is not None:
         kw["use_hessian"] = a["use_hessian"]
+    for name, val in (a.get("kw") or {}).items():
+        kw[name] = np.array(val) if isinstance(val, list) else val  # passed through to SciPy
     return kw
 
 
@@ -235,6 +237,23 @@ class Executor:
             getattr(P, op[3])(m.exprs[op[4]])
             fresh = S.new_shadow(op[2])
             sh.update(spec=op[2], objective=op[4], sense="min" if op[3] == "minimize" else "max", cons=[], ov=fresh["ov"], pv=fresh["pv"], handles={})
+        elif k == "objective_bad":
+            # minimize() / maximize() with an argument that must be rejected; afterwards the model is
+            # whatever the problem itself reports (public .sense / .objective)
+            try:
+                getattr(P, op[2])("not an expression")
+                rec["edit_exc"] = None
+            except Exception as e:  # noqa: BLE001
+                rec["edit_exc"] = type(e).__name__
+            sh["sense"] = "min" if P.sense == "minimize" else "max"
+            cur = P.objective
+            if cur is None:
+                sh["objective"] = None
+            elif sh["objective"] is None or m.exprs.get(sh["objective"]) is not cur:
+                found = [n for n, e in m.exprs.items() if e is cur]
+                if not found:
+                    raise HarnessError("objective_bad: the problem's objective is not a pool expression")
+                sh["objective"] = found[0]
         elif k == "subject_to_bad":
             # a list with an invalid element at position op[3]: the call must raise; whatever part of
             # the list the problem then reports as added (public n_constraints) is part of the model
